@@ -22,12 +22,13 @@ VARIABLES l,      \* cursor into Trace
           kv,     \* THE ORACLE: the plain reference map of C01 (key -> [ver, val, flag]), maintained from the
                   \* logged operations by the documented arithmetic only -- independent of the transcription's
                   \* internal state (ref, tree, ctab), so a layout drift can never turn into a false alarm
-          kvTreeOnly \* keys whose last version change wrote no record (check_vhash; C02 adoption)
+          kvTreeOnly, \* keys whose last version change wrote no record (check_vhash; C02 adoption)
+          kvCtab      \* keys found in the durable collision table at the last Open (signature of finding F8a)
 
 Trace == ndJsonDeserialize("trace.ndjson")
 
-tvars == <<l, obs, bad, drift, lead, sid, kv, kvTreeOnly>>
-KvSame == UNCHANGED <<kv, kvTreeOnly>>
+tvars == <<l, obs, bad, drift, lead, sid, kv, kvTreeOnly, kvCtab>>
+KvSame == UNCHANGED <<kv, kvTreeOnly, kvCtab>>
 NoKv == [ver |-> 0, val |-> 0, flag |-> 0, vh |-> 0]
 NoAux == [ok |-> FALSE, b |-> 0, e |-> 0, why |-> ""]
 NoObs == [e |-> [a |-> "none", n |-> 0], pre |-> NoKv, aux |-> NoAux]
@@ -91,7 +92,10 @@ KfTag(k) == IF k \in DOMAIN gh.kf THEN "!" \o gh.kf[k] ELSE ""
 KfTagR(k, afteropen, aftergc, res) ==
   IF k \in DOMAIN gh.kf THEN "!" \o gh.kf[k]
   ELSE IF Colliding(k) /\ kv[k].ver > 0 /\ aftergc THEN "!F18"
-  ELSE IF Colliding(k) /\ kv[k].ver > 0 /\ afteropen /\ res = "miss" THEN "!F8a"
+  \* (F8a needs that NO key of the group was in the collision table at that restart: a detected group is durable state
+  \*  and must protect its members)
+  ELSE IF Colliding(k) /\ kv[k].ver > 0 /\ afteropen /\ res = "miss"
+          /\ (\A k2 \in Keys : HashOf(k2) = HashOf(k) => k2 \notin kvCtab) THEN "!F8a"
   ELSE IF Colliding(k) /\ conf.checkVHash THEN "!F8b"
   ELSE ""
 
@@ -203,22 +207,26 @@ TrReset ==
   /\ ResetMem(ConfOf(Ev.conf))
   /\ disk' = FreshDisk /\ recs' = <<>> /\ ref' = [k \in Keys |-> NoRef] /\ gh' = FreshGh
   /\ Settle /\ obs' = NoObs /\ sid' = Ev.sid
-  /\ kv' = [k \in Keys |-> NoKv] /\ kvTreeOnly' = {}
+  /\ kv' = [k \in Keys |-> NoKv] /\ kvTreeOnly' = {} /\ kvCtab' = {}
 
 Stuck(what) == /\ drift' = drift \cup Drift(obs) \cup {<<sid, Ev.n, what>>}
                /\ bad' = bad \cup Checks(obs) /\ lead' = lead \cup StateChecks(obs)
                /\ obs' = NoObs /\ UNCHANGED vars
 
+KvSetStep ==
+  LET new == KvAfterSet(kv[Ev.k], Ev)
+      treeOnly == new # kv[Ev.k] /\ new.val = kv[Ev.k].val /\ conf.checkVHash /\ Ev.rev > 0 /\ kv[Ev.k].ver > 0 /\ ~Colliding(Ev.k)
+  IN /\ kv' = [kv EXCEPT ![Ev.k] = new]
+     /\ kvTreeOnly' = (IF new = kv[Ev.k] THEN kvTreeOnly ELSE IF treeOnly THEN kvTreeOnly \cup {Ev.k} ELSE kvTreeOnly \ {Ev.k})
+     /\ kvCtab' = kvCtab
+
 TrSet ==
-  /\ IsEv("Set") /\ ~OthersBusy /\ Adv /\ sid' = sid /\ (IF up THEN /\ kv' = [kv EXCEPT ![Ev.k] = KvAfterSet(kv[Ev.k], Ev)]
-                  /\ kvTreeOnly' = IF KvAfterSet(kv[Ev.k], Ev) = kv[Ev.k] THEN kvTreeOnly
-                                   ELSE IF KvAfterSet(kv[Ev.k], Ev).val = kv[Ev.k].val /\ conf.checkVHash /\ Ev.rev > 0 /\ kv[Ev.k].ver > 0 /\ ~Colliding(Ev.k)
-                                     THEN kvTreeOnly \cup {Ev.k} ELSE kvTreeOnly \ {Ev.k}
-           ELSE KvSame)
+  /\ IsEv("Set") /\ ~OthersBusy /\ Adv /\ sid' = sid
   /\ IF up
-       THEN /\ W_Begin("c1", Ev.k, Ev.val, Ev.rev, Ev.flag, Ev.nblk, Ev.vh)
+       THEN /\ KvSetStep
+            /\ W_Begin("c1", Ev.k, Ev.val, Ev.rev, Ev.flag, Ev.nblk, Ev.vh)
             /\ Settle /\ obs' = [e |-> Ev, pre |-> kv[Ev.k], aux |-> NoAux]
-       ELSE Stuck("set-while-down")
+       ELSE KvSame /\ Stuck("set-while-down")
 
 TrGet ==
   /\ IsEv("Get") /\ ~OthersBusy /\ Adv /\ sid' = sid /\ KvSame
@@ -227,10 +235,12 @@ TrGet ==
        ELSE Stuck("get-while-down")
 
 TrIncr ==
-  /\ IsEv("Incr") /\ ~OthersBusy /\ Adv /\ sid' = sid /\ (IF up THEN kv' = [kv EXCEPT ![Ev.k] = KvAfterIncr(kv[Ev.k], Ev)] /\ kvTreeOnly' = kvTreeOnly \ {Ev.k} ELSE KvSame)
+  /\ IsEv("Incr") /\ ~OthersBusy /\ Adv /\ sid' = sid
   /\ IF up
-       THEN I_Begin("c1", Ev.k, Ev.d, Ev.vh) /\ Settle /\ obs' = [e |-> Ev, pre |-> kv[Ev.k], aux |-> NoAux]
-       ELSE Stuck("incr-while-down")
+       THEN /\ kv' = [kv EXCEPT ![Ev.k] = KvAfterIncr(kv[Ev.k], Ev)]
+            /\ kvTreeOnly' = kvTreeOnly \ {Ev.k} /\ kvCtab' = kvCtab
+            /\ I_Begin("c1", Ev.k, Ev.d, Ev.vh) /\ Settle /\ obs' = [e |-> Ev, pre |-> kv[Ev.k], aux |-> NoAux]
+       ELSE KvSame /\ Stuck("incr-while-down")
 
 TrFlush ==
   /\ IsEv("Flush") /\ ~OthersBusy /\ Adv /\ sid' = sid /\ KvSame
@@ -257,22 +267,25 @@ RmFiles(d, rm) ==
                !.hintf = [c \in Chunks |-> [j \in 1..Len(d.hintf[c]) |->
                             IF <<c, j - 1>> \in hints THEN NoFile ELSE d.hintf[c][j]]]]
 
+KvOpenStep ==
+  /\ kv' = [k \in Keys |->
+              IF k \notin DOMAIN Ev.meta THEN kv[k]
+              ELSE IF kv[k].ver < 0
+                THEN (IF Ev.meta[k] = 0 THEN NoKv
+                      ELSE IF Ev.meta[k] < 0 THEN [kv[k] EXCEPT !.ver = Ev.meta[k]] ELSE kv[k])
+              ELSE IF k \in kvTreeOnly /\ Ev.meta[k] > 0 THEN [kv[k] EXCEPT !.ver = Ev.meta[k]]
+              ELSE kv[k]]
+  /\ kvTreeOnly' = {}
+  /\ kvCtab' = {Ev.ctab[i] : i \in 1..Len(Ev.ctab)}
+
 TrOpen ==
-  /\ IsEv("Open") /\ Quiet /\ Adv /\ sid' = sid /\ (IF ~up
-       THEN /\ kv' = [k \in Keys |->
-                  IF k \notin DOMAIN Ev.meta THEN kv[k]
-                  ELSE IF kv[k].ver < 0
-                    THEN (IF Ev.meta[k] = 0 THEN NoKv
-                          ELSE IF Ev.meta[k] < 0 THEN [kv[k] EXCEPT !.ver = Ev.meta[k]] ELSE kv[k])
-                  ELSE IF k \in kvTreeOnly /\ Ev.meta[k] > 0 THEN [kv[k] EXCEPT !.ver = Ev.meta[k]]
-                  ELSE kv[k]]
-            /\ kvTreeOnly' = {}
-       ELSE KvSame)
+  /\ IsEv("Open") /\ Quiet /\ Adv /\ sid' = sid
   /\ IF ~up
        THEN LET r == Recover(RmFiles(disk, Ev.removed)) IN
+            /\ KvOpenStep
             /\ up' = TRUE /\ head' = r.head /\ chk' = r.chk /\ tree' = r.tree /\ hm' = r.hm
             /\ disk' = r.disk /\ ctab' = r.ctab /\ bk' = r.bk
-            \* deleted keys: adopt the version memory the REAL store kept (logged meta), C02
+            \* the transcription's own reference map adopts the same version memory (C02)
             /\ ref' = [k \in Keys |->
                   IF k \notin DOMAIN Ev.meta THEN ref[k]
                   ELSE IF ref[k].ver < 0
@@ -283,7 +296,7 @@ TrOpen ==
             /\ gh' = [gh EXCEPT !.treeOnly = {}]
             /\ UNCHANGED <<conf, gc, lock, pc, loc, recs>>
             /\ Settle /\ obs' = [e |-> Ev, pre |-> NoKv, aux |-> NoAux]
-       ELSE Stuck("open-while-up")
+       ELSE KvSame /\ Stuck("open-while-up")
 
 \* has the specification's GC pass reached the hook point of event e?
 AtPoint(e) ==
@@ -300,7 +313,7 @@ AtPoint(e) ==
 TrGCStart ==
   /\ IsEv("GCStart") /\ Quiet /\ Adv /\ sid' = sid /\ KvSame
   /\ IF up
-       THEN /\ Settle /\ obs' = [e |-> Ev, pre |-> NoRef,
+       THEN /\ Settle /\ obs' = [e |-> Ev, pre |-> NoKv,
                                  aux |-> RangeOf(Ev.begin, Ev.end, LAMBDA n : IF ToString(n) \in DOMAIN Ev.old THEN Ev.old[ToString(n)] ELSE TRUE)]
             /\ G_Start(Ev.rb, Ev.re, Ev.merge)
        ELSE Stuck("gc-while-down")
@@ -308,7 +321,7 @@ TrGCStart ==
 \* a refused request: nothing happens, the refusal must agree with RangeOf
 TrGCRefused ==
   /\ IsEv("GCRefused") /\ Quiet /\ Adv /\ sid' = sid /\ KvSame
-  /\ Settle /\ obs' = [e |-> Ev, pre |-> NoRef,
+  /\ Settle /\ obs' = [e |-> Ev, pre |-> NoKv,
                         aux |-> RangeOf(Ev.begin, Ev.end, LAMBDA n : IF ToString(n) \in DOMAIN Ev.old THEN Ev.old[ToString(n)] ELSE TRUE)]
   /\ UNCHANGED vars
 
@@ -354,7 +367,7 @@ Silent == /\ UNCHANGED tvars
 
 TraceInit ==
   /\ l = 1 /\ obs = NoObs /\ bad = {} /\ drift = {} /\ lead = {} /\ sid = ""
-  /\ kv = [k \in Keys |-> NoKv] /\ kvTreeOnly = {} /\ TLCSet(1, 1)
+  /\ kv = [k \in Keys |-> NoKv] /\ kvTreeOnly = {} /\ kvCtab = {} /\ TLCSet(1, 1)
   /\ Init([hashOf |-> [k \in Keys |-> CHOOSE h \in HashIds : TRUE], rank |-> [k \in Keys |-> 0], fileMax |-> 4,
            splitCap |-> 2, checkVHash |-> FALSE, dumpEager |-> FALSE, bodyMaxBlk |-> 1, mut |-> {}])
 
